@@ -650,7 +650,7 @@ impl World {
         }
         ops.extend([Op::n0(K::FinMark), Op::n0(K::FinCycle), Op::n0(K::StartSweep)]);
         if sc.faults {
-            for which in 0..5u8 {
+            for which in 0..10u8 {
                 for k in 0..(sc.n as u8 + 1) {
                     ops.push(Op::n2(K::Fault, which, k));
                 }
